@@ -30,6 +30,7 @@ def run(ck):
     ck.rule("C05.R3", "slot cleared only by the last CloseGuard of a closing span (after on_close)", floor=7)
     ck.rule("C05.R4", "Clear resets every stored field not overwritten at creation", floor=5)
     ck.rule("C05.R5", "the registry's own references are released through the owning stack", floor=2)
+    ck.rule("C05.R10", "the registry's releases go through get_default: its re-entrancy flag is given back even when a layer's callback panicked (as C02.R6)", floor=3)
     ck.rule("C05.R9", "the span reference count cannot wrap: at least pointer-sized", floor=2)
     ck.rule("C05.R8", "reload::Subscriber forwards on_close (and every other notification) under a blocking per-call lock (as C12.R3)", floor=20)
     ck.rule("C05.R7", "collector wrappers forward the reference-counting and enter/exit calls (as C09.R1/R2)", floor=25)
@@ -58,6 +59,8 @@ def run(ck):
             C12.r3(ck, F, rid="C05.R8")
             from rulekit.query import counter_width
             counter_width(ck, F, "C05.R9", ("tracing_subscriber::registry::sharded::",))
+            from rules import C02
+            C02.r6(ck, F, rid="C05.R10")
     ck.tag = ""
 
 
